@@ -739,6 +739,7 @@ func (c *Ctx) VerifyFunction(key string) (*FuncReport, error) {
 		}
 		c.captureOld(env, ct.Ensures, run.oldCache)
 		run.entryAlloc = c.Arr(st, famAlloc, ArraySort(SInt, SBool))
+		run.entryHeld = c.Arr(st, famHeld, ArraySort(SInt, SBool))
 		// vacuity guard: the precondition must be satisfiable
 		c.emit(st, nil, nil, "cover", "precondition", True, "precondition satisfiable", true)
 	}
@@ -814,6 +815,11 @@ func (c *Ctx) checkPost(o outcome, fn *ssa.Function, ct *Contract, fr0 *Frame) {
 	}
 	if ct.HasModifies && !ct.Extern {
 		c.checkFrame(st, fn, ct, env)
+	}
+	if ct.Opts["acquires"] == "" && ct.Opts["releases"] == "" && c.cur.entryHeld.S != "" {
+		if h, ok := st.arrays[famHeld]; ok && h.S != c.cur.entryHeld.S {
+			c.emit(st, nil, nil, "lock", "balanced", Eq(h, c.cur.entryHeld), "the function returns holding exactly the locks it was called with", false)
+		}
 	}
 	if c.cur.tokenWg.S != "" {
 		th := c.Arr(st, "TokHeld", ArraySort(SInt, SInt))
